@@ -58,6 +58,11 @@ impl VM {
         }
 
         self.current_global_mapping_id = global_mapping_id;
+        self.current_global_layout = if global_layout.names().is_empty() {
+            None
+        } else {
+            Some(Arc::clone(&global_layout))
+        };
 
         let mut frame = CallFrame::new(
             function,
